@@ -111,6 +111,7 @@ def evaluate(pid, tag, data, res):
         res.count('gochannel=%s%s buffer=%s' % ('persistent' if c['persistent'] else 'plain', '+blocking' if c['blocking'] else '', '0' if c['buffer'] == 0 else 'n'))
         res.count('routers=%s' % ('one' if c['one_router'] else 'k'))
         if c.get('late_on_closed'): res.count('source publishes on the live topic-0 Pub/Sub after its Close (messages in flight downstream)', c['late_on_closed'])
+        if c.get('bystander', -1) >= 0 and not c['blocking']: res.count('with a bystander subscription on a pipeline topic (nacks once, cancels itself mid-run); it received %s' % ('0' if not c.get('bystander_got') else '1+'))
         if any(9 in row for row in c['fans']): res.count('with a passthrough handler (returns the consumed object)')
         nf = 0
         for d in c['log']:
